@@ -48,8 +48,9 @@ package p2p
 //@   ensures [C18] nonempty: amount > 0 ==> len(result) >= 1
 //@   ensures [C18] empty: amount == 0 ==> len(result) == 0
 //@   ensures [C18] first: len(result) >= 1 ==> reqOrigin(result[0]) == from
-//@   ensures [C18] chained: forall i int :: 0 <= i && i + 1 < len(result) ==> reqOrigin(result[i+1]) == reqOrigin(result[i]) + result[i].Amount
+//@   ensures [C18] chained: forall i int, j int @ result[i], result[j] :: 0 <= i && j == i + 1 && j < len(result) ==> reqOrigin(result[j]) == reqOrigin(result[i]) + result[i].Amount
 //@   ensures [C18] covers: len(result) >= 1 ==> reqOrigin(result[len(result)-1]) + result[len(result)-1].Amount == from + amount
+//@   ensures [C18] within-range: forall i int :: 0 <= i && i < len(result) ==> from <= reqOrigin(result[i]) && reqOrigin(result[i]) + result[i].Amount <= from + amount
 //@   ensures [C18] within-total: forall i int :: 0 <= i && i < len(result) ==> result[i].Amount <= amount
 //@   ensures [C18] sizes: forall i int :: 0 <= i && i < len(result) ==> result[i] != nil && 1 <= result[i].Amount && result[i].Amount <= headersPerPeer && reqIsOrigin(result[i])
 //@ loop 0:
@@ -61,7 +62,8 @@ package p2p
 //@   invariant alloc: forall i int :: 0 <= i && i < len(requests) ==> allocated(requests[i]) && requests[i] > old(allocTop) && allocated(requests[i].Data) && requests[i].Data > old(allocTop)
 //@   invariant frame: unchanged("elems(int)")
 //@   invariant first: len(requests) >= 1 ==> reqOrigin(requests[0]) == old(from)
-//@   invariant chained: forall i int :: 0 <= i && i + 1 < len(requests) ==> reqOrigin(requests[i+1]) == reqOrigin(requests[i]) + requests[i].Amount
+//@   invariant chained: forall i int, j int @ requests[i], requests[j] :: 0 <= i && j == i + 1 && j < len(requests) ==> reqOrigin(requests[j]) == reqOrigin(requests[i]) + requests[i].Amount
+//@   invariant within-range: forall i int :: 0 <= i && i < len(requests) ==> old(from) <= reqOrigin(requests[i]) && reqOrigin(requests[i]) + requests[i].Amount + amount <= old(from) + old(amount)
 //@   invariant within-total: forall i int :: 0 <= i && i < len(requests) ==> requests[i].Amount <= old(amount)
 //@   invariant sizes: forall i int :: 0 <= i && i < len(requests) ==> 1 <= requests[i].Amount && requests[i].Amount <= headersPerPeer && reqIsOrigin(requests[i])
 //@   decreases amount
@@ -149,7 +151,7 @@ package p2p
 //@ ghost var sessFrom uint64 -- first height of the range the session was asked for (ghost parameter)
 //@ ghost var sessAmount uint64 -- number of headers the session was asked for (ghost parameter)
 
-//@ pure verifiedRun(t, c) = forall k int :: 0 <= k && k < len(c) ==> passedVerify(ite(k == 0, t, c[k-1]), c[k]) && c[k].Height() == c[0].Height() + k
+//@ pure verifiedRun(t, c) = (len(c) >= 1 ==> passedVerify(t, c[0])) && (forall i int, j int @ c[i], c[j] :: 0 <= i && j == i + 1 && j < len(c) ==> passedVerify(c[i], c[j])) && (forall k int @ c[k] :: 0 <= k && k < len(c) ==> c[k].Height() == c[0].Height() + k)
 
 //@ func (*session).verify(s, headers)
 //@   props C05
@@ -165,7 +167,7 @@ package p2p
 //@   ensures [C05] chunk: result1 == nil ==> len(result0) >= 1 && len(result0) <= len(responses) && (forall k int :: 0 <= k && k < len(result0) ==> validated(result0[k]) && !result0[k].IsZero()) && (!s.from.IsZero() ==> verifiedRun(s.from, result0))
 
 //@ pure reqInRange(r) = r != nil && reqIsOrigin(r) && 1 <= r.Amount && r.Amount <= 140737488355328 && sessFrom <= reqOrigin(r) && reqOrigin(r) + r.Amount <= sessFrom + sessAmount
-//@ pure chunkOK(t, c) = len(c) >= 1 && sessFrom <= c[0].Height() && c[0].Height() + len(c) <= sessFrom + sessAmount && (forall k int :: 0 <= k && k < len(c) ==> validated(c[k]) && !c[k].IsZero()) && verifiedRun(t, c)
+//@ pure chunkOK(t, c) = len(c) >= 1 && sessFrom <= c[0].Height() && c[0].Height() + len(c) <= sessFrom + sessAmount && (forall a int @ at(c, a) :: off(c) <= a && a < off(c) + len(c) ==> inSession(at(c, a))) && verifiedRun(t, c)
 
 //@ chaninv session.reqCh(r): reqInRange(r)
 //@ chaninv (*session).doRequest.headers(c): chunkOK(s.from, c)
@@ -176,3 +178,44 @@ package p2p
 //@   modifies $now, header.VerifyError.SoftFailure
 //@   ensures [C18] at-most-one-chunk: sent("(*session).doRequest.headers") <= old(sent("(*session).doRequest.headers")) + 1
 //@   ensures [C18] at-most-one-requeue: sent("session.reqCh") <= old(sent("session.reqCh")) + 1
+
+//@ chaninv (*session).getRangeByHeight.result(c): chunkOK(s.from, c)
+//@ chaninv (*session).handleOutgoingRequests.result(c): chunkOK(s.from, c)
+
+//@ pure inSession(h) = sessFrom <= h.Height() && h.Height() < sessFrom + sessAmount && validated(h) && !h.IsZero()
+
+//@ func (*session).handleOutgoingRequests(s, ctx, result)
+//@   props C05, C18
+//@   requires sessFrom + sessAmount <= MaxUint64 && !s.from.IsZero()
+
+//@ func (*session).getRangeByHeight(s, ctx, from, amount, headersPerPeer)
+//@   props C05, C18
+//@   requires sessFrom == from && sessAmount == amount && headersPerPeer >= 1 && 1 <= amount && amount <= 140737488355328 && from + amount <= MaxUint64 && !s.from.IsZero()
+//@   modifies session.reqCh, $now
+//@   ensures [C05] enough: result1 == nil ==> len(result0) >= amount
+//@   ensures [C05] in-range: result1 == nil ==> forall a int @ at(result0, a) :: off(result0) <= a && a < off(result0) + len(result0) ==> inSession(at(result0, a))
+//@   ensures [C05] ascending: result1 == nil ==> forall a int, b int @ at(result0, a), at(result0, b) :: off(result0) <= a && a < b && b < off(result0) + len(result0) ==> at(result0, a).Height() <= at(result0, b).Height()
+//@ loop 0:
+//@   invariant bounds: -1 <= rangeindex && rangeindex + 1 <= len(requests)
+//@   invariant frame: unchanged("elems(H)") && unchanged("elems(int)")
+//@ loop 1:
+//@   invariant collected: forall a int @ at(headers, a) :: off(headers) <= a && a < off(headers) + len(headers) ==> inSession(at(headers, a))
+//@   invariant nonempty-request: amount >= 1
+//@   invariant frame: unchanged("elems(H)") && unchanged("elems(int)") && fresh(arr(headers))
+
+//@ ghost var sessValidationHeader H -- the header handed to the session through withValidation (ghost parameter)
+
+//@ func newSession(ctx, h, peerTracker, protocolID, requestTimeout, metrics, options)
+//@   trusted
+//@   ensures result != nil && result.from == sessValidationHeader -- option closures (withValidation) are not modelled: assumed
+
+//@ func (*Exchange).GetRangeByHeight(ex, ctx, from, to)
+//@   props C05, C18
+//@   requires !from.IsZero() && from.Height() < MaxUint64 && sessValidationHeader == from && sessFrom == u64(from.Height() + 1) && sessAmount == u64(to - sessFrom)
+//@   requires ex.Params.MaxHeadersPerRangeRequest >= 1 && to - from.Height() <= 140737488355328
+//@   modifies session.reqCh, session.cancel, session.from, elems(int), $now
+//@   ensures [C05] degenerate: to <= from.Height() + 1 ==> result1 != nil
+//@   ensures [C05] nonempty: result1 == nil ==> len(result0) >= 1 && len(result0) >= to - from.Height() - 1
+//@   ensures [C05] in-range: result1 == nil ==> forall a int @ at(result0, a) :: off(result0) <= a && a < off(result0) + len(result0) ==> from.Height() < at(result0, a).Height() && at(result0, a).Height() < to && validated(at(result0, a)) && !at(result0, a).IsZero()
+//@   ensures [C05] ascending: result1 == nil ==> forall a int, b int @ at(result0, a), at(result0, b) :: off(result0) <= a && a < b && b < off(result0) + len(result0) ==> at(result0, a).Height() <= at(result0, b).Height()
+//@   ensures [C05] error-no-headers: result1 != nil ==> len(result0) == 0
